@@ -58,7 +58,18 @@ def hostile_mapping(rnd, names, pct=60, allow_bar_backslash=False):
     """Injective renaming of `names`; each name is replaced with probability pct%."""
     used = set(names)
     m = {}
+    if rnd.randrange(100) < 15:
+        # names that look like the printers' own let-names / fresh names, consecutively numbered
+        base = rnd.choice([".def_%d", ".def_%d", "FV%d", "__x%d", "ack%d"])
+        start = rnd.choice([0, 0, 1, 2])
+        for i, n in enumerate(sorted(names)[:rnd.randint(2, 4)]):
+            h = base % (start + i)
+            if h not in used:
+                used.add(h)
+                m[n] = h
     for n in sorted(names):
+        if n in m:
+            continue
         if rnd.randrange(100) < pct:
             for _ in range(10):
                 h = draw_name(rnd, allow_bar_backslash)
